@@ -339,3 +339,62 @@ Proof.
   destruct (run_all_profile k (ntens g) post st2 st3 g2 Hok Hnn Hg2 ltac:(lia) H3) as (g3 & Hg3 & P3 & _).
   exists g3. split; [exact Hg3|]. congruence.
 Qed.
+
+(* ... and what that new tensor is: typed by the instruction's parameters at the
+   step, and never changed afterwards *)
+Definition new_tensor_type (is_quant : bool) (ps : option qparam) (tn : tensor) : Prop :=
+  match ps with
+  | None => True
+  | Some p =>
+      if is_quant then
+        (if qp_uniform p
+         then quant_params_to_tflite_type (qp_bits p) = Ok (t_ty tn) /\ t_q tn = Some (qp_id p)
+         else nonlinear_quant_params_to_tflite_type (qp_bits p) = Ok (t_ty tn))
+      else t_ty tn = TY_FLOAT32 /\ t_q tn = None
+  end.
+
+Theorem inserted_tensor_typed k st i later st1 later1 fuel st2 post st3 g :
+  nth_opt (m_subgraphs (ps_model st)) k = Some g ->
+  (i_trans i = Tr_ADD_QUANTIZE \/ i_trans i = Tr_ADD_DEQUANTIZE) ->
+  0 <= i_tensor i < ntens g -> (forall t0, tensor_at g (i_tensor i) = Some t0 -> 0 <= t_buf t0) ->
+  apply_single st (Z.of_nat k) i later = Ok (st1, later1) ->
+  Forall (fun j => 0 <= i_tensor j) later1 -> Forall (quiet (ntens g)) later1 ->
+  apply_insts st1 (Z.of_nat k) later1 fuel = Ok st2 ->
+  ids_ok post -> never_names k (ntens g) post -> run_all post st2 = Ok st3 ->
+  exists g3 tn, nth_opt (m_subgraphs (ps_model st3)) k = Some g3 /\
+                tensor_at g3 (ntens g) = Some tn /\
+                new_tensor_type (qtrans_eqb (i_trans i) Tr_ADD_QUANTIZE) (i_params i) tn.
+Proof.
+  intros Hg Htr Ht Hbuf H Hnn1 Hq1 H2 Hok Hnn H3.
+  assert (Hs : 0 <= Z.of_nat k) by lia.
+  pose proof H as H'. rewrite apply_single_unfold in H'.
+  destruct (py_index (ps_orig st) (Z.of_nat k)) as [om|]; cbn [bind] in H'; [|discriminate].
+  destruct (py_index (ps_added st) (Z.of_nat k)) as [am|]; cbn [bind] in H'; [|discriminate].
+  destruct (py_index (m_subgraphs (ps_model st)) (Z.of_nat k)) as [g0|] eqn:Eg; cbn [bind] in H'; [|discriminate].
+  apply (py_index_nonneg _ _ _ Hs) in Eg. destruct Eg as [Eg _]. rewrite Nat2Z.id, Hg in Eg. inversion Eg; subst g0.
+  destruct (resolve om am (i_producer i)) as [producer|]; cbn [bind] in H'; [|discriminate].
+  destruct (mapM _ (i_consumers i)) as [cs|]; cbn [bind] in H'; [|discriminate].
+  destruct (trans_of i (m_opcodes (ps_model st)) (m_buffers (ps_model st)) g producer cs)
+    as [[[[c' b'] g1] info]|] eqn:T; cbn [bind] in H'; [|discriminate].
+  assert (P1 : exists tn, tensor_at g1 (ntens g) = Some tn /\
+                          new_tensor_type (qtrans_eqb (i_trans i) Tr_ADD_QUANTIZE) (i_params i) tn /\
+                          ntens g1 = ntens g + 1).
+  { unfold trans_of in T. destruct Htr as [E|E]; rewrite E in T |- *; cbn [qtrans_eqb].
+    - destruct (insert_common_types _ _ _ _ _ _ _ _ _ _ _ _ (proj1 Ht) Hbuf T) as (t0 & tn & _ & A & _ & _ & _ & _ & _ & _ & B).
+      destruct (insert_common_other _ _ _ _ _ _ _ _ _ _ _ _ (proj1 Ht) T) as (N & _).
+      exists tn. split; [exact A|]. split; [|exact N]. unfold new_tensor_type. destruct (i_params i) as [p|]; [|exact I].
+      change (qtrans_eqb Tr_ADD_QUANTIZE Tr_ADD_QUANTIZE) with true. exact B.
+    - destruct (insert_common_types _ _ _ _ _ _ _ _ _ _ _ _ (proj1 Ht) Hbuf T) as (t0 & tn & _ & A & _ & _ & _ & _ & _ & _ & B).
+      destruct (insert_common_other _ _ _ _ _ _ _ _ _ _ _ _ (proj1 Ht) T) as (N & _).
+      exists tn. split; [exact A|]. split; [|exact N]. unfold new_tensor_type. destruct (i_params i) as [p|]; [|exact I].
+      change (qtrans_eqb Tr_ADD_DEQUANTIZE Tr_ADD_QUANTIZE) with false. destruct B as (B1 & B2 & _). split; assumption. }
+  destruct P1 as (tn & A1 & B1 & N1).
+  assert (Hg1 : nth_opt (m_subgraphs (ps_model st1)) k = Some g1).
+  { destruct (to_added info =? 0); inversion H'; subst st1; cbn [ps_model set_sg m_subgraphs];
+      rewrite Nat2Z.id; apply nth_opt_set_nth_same; eapply nth_opt_Some_lt; exact Hg. }
+  assert (Hx : 0 <= ntens g < ntens g1) by (unfold ntens, lenZ in *; lia).
+  destruct (apply_insts_untouched (Z.of_nat k) k (ntens g) Hs fuel later1 st1 st2 g1 Hnn1 Hg1 Hx (or_intror Hq1) H2)
+    as (g2 & Hg2 & T2 & N2).
+  destruct (run_all_untouched k (ntens g) post st2 st3 g2 Hok Hnn Hg2 ltac:(lia) H3) as (g3 & Hg3 & T3 & _).
+  exists g3, tn. split; [exact Hg3|]. split; [congruence|exact B1].
+Qed.
